@@ -78,8 +78,24 @@ def seam_probe(rep, rng, n):
         obj = smooth_objective(g, r)
         mx = r.random() < 0.4
         P = Problem()
-        for v in g.pool.all_scalar_vars():
+        # bound layouts a model may have as a whole: mixed, only upper bounds, only lower bounds, none at all, a single one-sided bound
+        blay = r.choice(["mixed", "mixed", "upper_only", "lower_only", "none", "one_upper", "one_lower"])
+        allv_ = g.pool.all_scalar_vars()
+        lone = r.randrange(len(allv_))
+        for j_, v in enumerate(allv_):
             v.lb = r.choice([None, -2.0, 0.0, -0.5]); v.ub = r.choice([None, 3.0, 1.5])
+            if blay in ("upper_only", "none", "one_upper", "one_lower"):
+                v.lb = None
+            if blay in ("lower_only", "none", "one_upper", "one_lower"):
+                v.ub = None
+            if blay == "upper_only" and v.ub is None and r.random() < 0.7:
+                v.ub = 1.5
+            if blay == "lower_only" and v.lb is None and r.random() < 0.7:
+                v.lb = -0.5
+            if blay == "one_upper" and j_ == lone:
+                v.ub = r.choice([0.0, 1.5, -1.0])
+            if blay == "one_lower" and j_ == lone:
+                v.lb = r.choice([0.0, -0.5, 1.0])
             if v.lb is not None and v.ub is not None and v.lb > v.ub:
                 v.ub = None
         (P.maximize if mx else P.minimize)(obj)
@@ -145,7 +161,7 @@ def manufactured(rep, rng, n):
     from optyx.solvers.scipy_solver import _compute_initial_point
     tried = conv = 0
     layouts = ["none", "eq", "ineq_active", "ineq_inactive", "bounds_active", "bounds_inactive", "eq_then_ineq", "ineq_then_eq", "two_ineq",
-               "bound_exactly_zero"]
+               "bound_exactly_zero", "upper_only_active", "one_upper_active", "lower_only_active"]
     edits_hist = {}
     for i in range(n):
         r = random.Random(rng.random())
@@ -217,7 +233,7 @@ def manufactured(rep, rng, n):
         }
         seq = {"none": [], "eq": ["eq"], "ineq_active": ["ineq_active"], "ineq_inactive": ["ineq_inactive"], "bounds_active": [], "bounds_inactive": [],
                "eq_then_ineq": ["eq", "w_active"], "ineq_then_eq": ["w_active", "eq"], "two_ineq": ["ineq_active", "w_active"],
-               "bound_exactly_zero": []}[cons_kind]
+               "bound_exactly_zero": [], "upper_only_active": [], "one_upper_active": [], "lower_only_active": []}[cons_kind]
         builders = []
         for nm in seq:
             P.subject_to(piece[nm][0]())
@@ -227,6 +243,14 @@ def manufactured(rep, rng, n):
         elif cons_kind == "bounds_inactive":
             vs[0].lb = float(a[0]) - 5.0
             vs[0].ub = float(a[0]) + 5.0
+        elif cons_kind == "upper_only_active":
+            for k_ in range(nv):
+                vs[k_].ub = float(a[k_]) - 0.5 - 0.25 * k_
+        elif cons_kind == "one_upper_active":
+            vs[-1].ub = float(a[-1]) - 1.0
+        elif cons_kind == "lower_only_active":
+            for k_ in range(nv):
+                vs[k_].lb = float(a[k_]) + 0.5 + 0.25 * k_
         elif cons_kind == "bound_exactly_zero":
             # the bound value 0 (int and float spellings) on the side the objective pushes against
             for k_ in range(nv):
@@ -294,7 +318,8 @@ def manufactured(rep, rng, n):
         history = []
         compare("first solves", history)
         for step in range(r.randint(1, 2)):
-            edit = r.choice(["list_cut", "scalar_cut", "bound_edit", "bound_edit"])
+            # (lower cuts would contradict the active upper bounds of the upper-bound layouts: those are edited through bounds only)
+            edit = r.choice(["bound_edit"] if cons_kind in ("upper_only_active", "one_upper_active") else ["list_cut", "scalar_cut", "bound_edit", "bound_edit"])
             edits_hist[edit] = edits_hist.get(edit, 0) + 1
             if edit == "list_cut":
                 cut = [0.3 + 0.1 * k for k in range(nv)]
